@@ -55,6 +55,13 @@ BlockTab ==
    descR |-> << D("GET", <<"pdr">>, "", FALSE, "", ""), D("Description", <<>>, "", FALSE, "d1", ""),
                 D("RESP", <<>>, "", FALSE, "obj", "200"), D("PUT", <<"pdr">>, "", FALSE, "", ""), D("Description", <<>>, "", FALSE, "d2", ""),
                 D("RESP", <<"any">>, "", FALSE, "", "404") >>,
+   \* a response and a request whose bodies are given by child Body directives
+   respB |-> << D("POST", <<"prb">>, "", FALSE, "", ""), D("Request", <<>>, "", FALSE, "", ""), D("Body", <<"any">>, "", FALSE, "", ""),
+                D("RESP", <<>>, "", FALSE, "", "200"), D("Body", <<"@t1">>, "", FALSE, "", ""),
+                D("RESP", <<>>, "", FALSE, "", "404"), D("Headers", <<>>, "", FALSE, "hdr", ""), D("Body", <<"empty">>, "", FALSE, "", "") >>,   \* needs t1
+   \* a URL-level Tags that every method of the URL overrides (nobody uses it; it is checked all the same)
+   urlTT |-> << D("URL", <<"ptt">>, "", FALSE, "", ""), D("Tags", <<"@g1">>, "", FALSE, "", ""),
+                D("GET", <<>>, "", FALSE, "", ""), D("Tags", <<"@g_2">>, "", FALSE, "", ""), D("RESP", <<"any">>, "", FALSE, "", "200") >>,       \* needs tag1 tag2
    \* a macro that carries a Path, pasted under two resources (each paste is a new copy of the method and its Path)
    macP  |-> << D("MACRO", <<"@mp">>, "", TRUE, "", ""), D("GET", <<>>, "", FALSE, "", ""), D("Path", <<>>, "", FALSE, "pid", ""),
                 D("RESP", <<"any">>, "", FALSE, "", "200"), CloseTok >>,
